@@ -572,6 +572,34 @@ pub fn plausible_errnos(nr: usize) -> &'static [i32] {
     }
 }
 
+/// Errnos the code under test branches on (retry, "would block", "already there"): a fault with one
+/// of these takes a different path through the operation than an ordinary failure, so they are part
+/// of the quick tier for every call, ahead of the first two ordinary ones.
+pub fn branch_errnos(nr: usize) -> &'static [i32] {
+    use libc::*;
+    match nr {
+        n if n == sc::nr::CONNECT => &[EAGAIN, EINPROGRESS, EALREADY, EINTR],
+        n if n == sc::nr::ACCEPT || n == sc::nr::ACCEPT4 => &[EAGAIN, EINTR],
+        n if n == sc::nr::READ || n == sc::nr::READV || n == sc::nr::WRITE || n == sc::nr::WRITEV => &[EAGAIN, EINTR],
+        n if n == sc::nr::DUP3 || n == sc::nr::DUP2 => &[EBUSY, EINTR],
+        n if n == sc::nr::MKDIR || n == sc::nr::MKDIRAT => &[EEXIST, ENOENT],
+        n if n == sc::nr::OPEN || n == sc::nr::OPENAT => &[EINTR, EEXIST],
+        n if n == sc::nr::PPOLL || n == sc::nr::POLL || n == sc::nr::WAIT4 => &[EINTR],
+        _ => &[],
+    }
+}
+
+fn quick_errnos(nr: usize, all: bool) -> Vec<i32> {
+    let mut v: Vec<i32> = branch_errnos(nr).to_vec();
+    let p = plausible_errnos(nr);
+    for &e in if all { p } else { &p[..p.len().min(2)] } {
+        if !v.contains(&e) {
+            v.push(e);
+        }
+    }
+    v
+}
+
 fn never_fault(nr: usize) -> bool {
     // forcing these to "fail" without executing would manufacture a leak / is not a failure mode
     nr == sc::nr::CLOSE || nr == sc::nr::MUNMAP || nr == sc::nr::EXIT || nr == sc::nr::EXIT_GROUP
@@ -761,9 +789,8 @@ pub fn run(ctx: &Ctx) {
             if never_fault(call.nr) {
                 continue;
             }
-            let errs = plausible_errnos(call.nr);
-            let errs: &[i32] = if all_errnos { errs } else { &errs[..errs.len().min(2)] };
-            for &e in errs {
+            let errs = quick_errnos(call.nr, all_errnos);
+            for &e in errs.iter() {
                 let case = FdCase { scenario: name.to_string(), fault: Some((j as u32, e)), child_fault: None, after_exec: false };
                 let ok = ctx.run_one("fd-table", &case, || check_case(&env, &case));
                 total += 1;
@@ -791,7 +818,7 @@ pub fn run(ctx: &Ctx) {
         }
     }
     if complete {
-        ctx.note_exhaustive(format!("fd-table: every scenario of this worker's share ({} scenarios in total) x every index of its syscall sequence x {} plausible errno(s) per call; {} cases on this worker", scn.len(), if all_errnos { "all" } else { "the first two" }, total));
+        ctx.note_exhaustive(format!("fd-table: every scenario of this worker's share ({} scenarios in total) x every index of its syscall sequence x {} plausible errno(s) per call plus every errno the code branches on (EAGAIN, EINPROGRESS, EINTR, EBUSY, EEXIST...); {} cases on this worker", scn.len(), if all_errnos { "all" } else { "the first two" }, total));
     }
     unsafe { libc::close(env.unix_listener_fd) };
     let _ = std::fs::remove_dir_all(&env.root);
